@@ -14,8 +14,11 @@
 //! A third family puts an `include` line (of an empty, blank, comment-only or valid file, literal or glob) into the
 //! bad file itself BEFORE the bad entry: files that were included and finished must not be named.
 //!
-//!  F  the diagnostic names the bad file (` --> path:l:c` / `failed to parse file path`), not the root, a sibling
-//!     or an intermediate file;
+//! A fourth family runs the real `okane` binary (every sub-command that loads a ledger) and judges its stderr: the
+//! only observation point that executes `main`, which decides how much of the error chain is printed.
+//!
+//!  F  the diagnostic names the bad file (` --> path:l:c` / `failed to parse file path`), and NO location header
+//!     names the root, a sibling or an intermediate file (a second, contradicting header is a violation);
 //!  L  every line number it shows (gutter numbers and `l` of `-->`) is >= the first line of the bad entry, and
 //!     <= its last line (semantic fault) resp. <= the fault line (syntax fault; numbers between the fault line and
 //!     the end of the entry are DON'T-CARE, numbers beyond the entry are violations);
@@ -31,11 +34,13 @@ pub const DEF: CheckDef = CheckDef {
     id: "C14",
     run,
     technique: "bounded-exhaustive enumeration of (prefix context x fault x include location) with generator-computed first/last/fault line of the one invalid entry in original-file numbering; the rendered error chain of the real loader/parser/book-keeper (FakeFileSystem in-process, and the in-process CLI on real files for a fixed subset) is parsed (named path, `-->` line, gutter numbers, snippet text) and compared with the generator's numbers and with the original file's lines",
-    rule: "case = (context, fault, location, fs). Context = 8 slots with a default each (leading blank lines 0-3; blank lines between preceding content and the bad entry 1/0/2/3; LF/CRLF; preceding content none/comment block/transaction/two transactions/directives/mix; multi-byte marker none/2-/3-/4-byte UTF-8 in preceding payees, comments, account names and inside the bad entry before the fault; following content none/transaction/transaction+comment; blank lines after the bad entry 1/0/2; final newline present/absent): all contexts with <= 2 non-default slots (thorough: ALL contexts, i.e. the full product of the 8 slots). Fault = every entry of the fault table (syntactic: bad date, bad effective date, unknown directive, malformed number / unclosed parenthesis / duplicated lot price / dangling @ / dangling = / bad lot date / trailing garbage on posting k=1..3, unindented posting, bare include, bad sub-line of account/commodity, malformed apply tag / end; semantic: unbalanced, false assertion on posting j, two omitted postings, zero rate, zero total, same-commodity cost/lot, zero lot, zero amount with cost, expression errors, `= 0` on a multi-commodity account, account/commodity alias conflicts). Location = root, or literal/glob include at depth 1/2 below a root with a short or long preamble (and, for faults needing an earlier declaration, that declaration in the bad file or in the root). Include-before-entry family: in the file of the bad entry (root or included) an `include` line precedes the entry, its target being an empty / newline-only / whitespace-only / comment-only / valid file or a glob matching blank files among valid ones (7 kinds) x all faults x contexts with <= 1 (thorough <= 2) non-default slots x root + 4 include shapes (thorough: all locations). states = cases executed, transitions = line numbers + snippet lines compared",
+    rule: "case = (context, fault, location, fs). Context = 8 slots with a default each (leading blank lines 0-3; blank lines between preceding content and the bad entry 1/0/2/3; LF/CRLF; preceding content none/comment block/transaction/two transactions/directives/mix; multi-byte marker none/2-/3-/4-byte UTF-8 in preceding payees, comments, account names and inside the bad entry before the fault; following content none/transaction/transaction+comment; blank lines after the bad entry 1/0/2; final newline present/absent): all contexts with <= 2 non-default slots (thorough: ALL contexts, i.e. the full product of the 8 slots). Fault = every entry of the fault table (syntactic: bad date, bad effective date, unknown directive, malformed number / unclosed parenthesis / duplicated lot price / dangling @ / dangling = / bad lot date / trailing garbage on posting k=1..3, unindented posting, bare include, bad sub-line of account/commodity, malformed apply tag / end; semantic: unbalanced, false assertion on posting j, two omitted postings, zero rate, zero total, same-commodity cost/lot, zero lot, zero amount with cost, expression errors, `= 0` on a multi-commodity account, account/commodity alias conflicts). Location = root, or literal/glob include at depth 1/2 below a root with a short or long preamble (and, for faults needing an earlier declaration, that declaration in the bad file or in the root). Include-before-entry family: in the file of the bad entry (root or included) an `include` line precedes the entry, its target being an empty / newline-only / whitespace-only / comment-only / valid file or a glob matching blank files among valid ones (7 kinds) x all faults x contexts with <= 1 (thorough <= 2) non-default slots  x root + 4 include shapes (thorough: all locations). Binary family: the real hooks-off `okane` binary (stderr = the diagnostic) for balance, register, primitive eval (+ accounts, primitive flatten for syntax faults) x all faults x default context (thorough <= 1 non-default slot) x root + 4 include shapes (+ after an include of an empty file). states = cases executed, transitions = line numbers + snippet lines compared",
     assumptions: &[
         "the generator's own line arithmetic (positions in a Vec of lines) is the reference; every line of a generated file is textually distinct from its neighbours, so a snippet line identifies its line number",
         "for a syntax error the allowed range is [first line of the entry, fault line]; a number after the fault line but inside the entry (or the blank line / end of file directly after it) is DON'T-CARE because the statement does not pin where a parser may stop; a number before the entry or inside another entry is a violation",
         "column numbers, message wording and the choice of annotated sub-spans are not judged",
+        "every location header (` --> p:l:c`, `failed to parse file p`, any `p:<digit>` of a loaded file) must name the file holding the offending line, also when the right file is named elsewhere in the same diagnostic; a bare mention of another loaded file outside a location header is DON'T-CARE",
+        "the binary's stderr cannot be classified by phase (parse / book-keeping) without trusting its text, so the phase cross-check is skipped there; exit status 1 = rejected, 0 = accepted, anything else is reported as a crash",
         "real-file-system subset: all faults x all locations (plus a depth-2 include through `../`) x contexts with <= 1 (thorough <= 2) non-default slots, through `okane balance` (and `register` / `accounts`, `primitive flatten`; in quick these only in the default context) run in-process exactly like cli/src/bin/okane.rs",
     ],
     shards: 64,
@@ -227,10 +232,13 @@ fn faults(m: &str) -> Vec<Fault> {
 
     // ---- syntactic ----
     out.push(Fault { name: "bad-date".into(), family: "bad-date", kind: Kind::Syntax, setup: vec![], lines: tt(Some(format!("2024/13/02 Bad {m} entry")), &okv), fault: 0 });
+    // a date that is syntactically a date but not a day of the calendar: the parse error carries an extra underlying cause
+    out.push(Fault { name: "invalid-calendar-day".into(), family: "bad-date", kind: Kind::Syntax, setup: vec![], lines: tt(Some(format!("2024/02/30 Bad {m} entry")), &okv), fault: 0 });
+    out.push(Fault { name: "invalid-calendar-day-dashes".into(), family: "bad-date", kind: Kind::Syntax, setup: vec![], lines: tt(Some(format!("2023-02-29 Bad {m} entry")), &okv), fault: 0 });
     out.push(Fault { name: "bad-effective-date".into(), family: "bad-effective-date", kind: Kind::Syntax, setup: vec![], lines: tt(Some(format!("2024/02/02=2024/13/01 Bad {m} entry")), &okv), fault: 0 });
     out.push(Fault { name: "unknown-directive".into(), family: "unknown-directive", kind: Kind::Syntax, setup: vec![], lines: vec![format!("bogus{m} directive here")], fault: 0 });
     out.push(Fault { name: "unknown-directive-with-sublines".into(), family: "unknown-directive", kind: Kind::Syntax, setup: vec![], lines: vec![format!("P 2024/02/02 {m} 5 X"), format!("  sub line {m}"), "  other sub line".into()], fault: 0 });
-    let per_posting: [(&'static str, &str); 8] = [
+    let per_posting: [(&'static str, &str); 10] = [
         ("malformed-number", "1.2.3 X"),
         ("unclosed-paren", "(1 X + 1 X"),
         ("dup-lot-price", "2 X {1 Y} {2 Y}"),
@@ -239,6 +247,8 @@ fn faults(m: &str) -> Vec<Fault> {
         ("bad-lot-date", "2 X [2024/13/01]"),
         ("trailing-garbage", "2 X garbage"),
         ("double-at", "2 X @ @ 1 Y"),
+        ("number-out-of-range", "1000000000000000000000000000000000000000 X"),
+        ("invalid-calendar-day-in-lot", "2 X [2024/02/30]"),
     ];
     for (fam, s) in per_posting {
         for k in 1..=3usize {
@@ -690,7 +700,7 @@ fn judge(obs: &Observed, lay: &Layout, bf: &BadFile, f: &Fault, loc: &Loc, via: 
         return Outcome::dont_care(format!("{}/accepted/{}", via, f.family));
     }
     let want_kind = if f.kind == Kind::Syntax { "parse" } else { "bookkeep" };
-    if obs.kind != want_kind {
+    if obs.kind != want_kind && obs.kind != "unknown" {
         return Outcome::dont_care(format!("{}/rejected-in-another-phase/{}/{}", via, f.family, obs.kind));
     }
     let text = strip_ansi(&obs.text);
@@ -705,7 +715,13 @@ fn judge(obs: &Observed, lay: &Layout, bf: &BadFile, f: &Fault, loc: &Loc, via: 
     let bad = norm_path(&lay.bad_path);
 
     // signatures: clause / phase / where the bad file is / how it was run (details carry fault, variant, command)
-    let fsname = if via == "fake-fs" { "fake-fs" } else { "cli-real-files" };
+    let fsname = if via == "fake-fs" {
+        "fake-fs"
+    } else if via.starts_with("bin-") {
+        "okane-binary"
+    } else {
+        "cli-real-files"
+    };
     let tail = format!("{}/{}/{}", want_kind, locname, fsname);
     let ctxt = |extra: String| -> String { ctxt(format!("okane error: {} (via {})\n{}", obs.variant, via, extra)) };
 
@@ -721,14 +737,30 @@ fn judge(obs: &Observed, lay: &Layout, bf: &BadFile, f: &Fault, loc: &Loc, via: 
             "an-unknown-path"
         }
     };
-    if !loc_paths.is_empty() && !loc_paths.iter().any(|p| *p == bad) {
-        let p = &loc_paths[0];
+    // every location header must name the file that holds the offending line: a second header blaming another
+    // file contradicts the first one even when the right file is named as well
+    if let Some(p) = loc_paths.iter().find(|p| **p != bad) {
         return Outcome::violation(format!("names-wrong-file/{}/{}", who(p), tail), ctxt(format!("the diagnostic locates the error in {} but the invalid entry is in {}", p, bad)));
     }
     if loc_paths.is_empty() && !text.contains(&lay.bad_path) && !text.contains(&bad) {
         return Outcome::violation(format!("names-no-file/{}", tail), ctxt("the diagnostic does not name the file containing the invalid entry".into()));
     }
-
+    // any other loaded file shown anywhere: `path:<digit>` is a location claim (violation), a bare mention is not judged
+    let mut mentions_other = false;
+    for (q, _) in &lay.files {
+        if norm_path(q) == bad {
+            continue;
+        }
+        for (pos, _) in text.match_indices(q.as_str()) {
+            let rest = &text[pos + q.len()..];
+            let mut it = rest.chars();
+            if it.next() == Some(':') && it.next().map(|c| c.is_ascii_digit()).unwrap_or(false) {
+                return Outcome::violation(format!("names-wrong-file/{}/{}", who(&norm_path(q)), tail), ctxt(format!("the diagnostic attributes a line to {} but the invalid entry is in {}", q, bad)));
+            }
+            // (a longer path that merely starts with q, e.g. q = /v/main.ledger inside /v/main.ledger.bak, cannot occur: all names are generated)
+            mentions_other = true;
+        }
+    }
     let mut shown: Vec<(usize, &'static str)> = d.gutters.iter().map(|g| (g.0, "gutter")).collect();
     shown.extend(d.arrows.iter().map(|a| (a.1, "`-->`")));
     if shown.is_empty() {
@@ -790,6 +822,9 @@ fn judge(obs: &Observed, lay: &Layout, bf: &BadFile, f: &Fault, loc: &Loc, via: 
         }
     }
 
+    if mentions_other {
+        return Outcome::dont_care(format!("{}/mentions-another-file-outside-a-location-header/{}", via, f.family));
+    }
     if soft {
         return Outcome::dont_care(format!("{}/{}/{}/stopped-after-the-fault-line-inside-entry", via, kname, f.family));
     }
@@ -834,7 +869,18 @@ fn observe_fake(lay: &Layout) -> Observed {
 
 /// Writes the layout (every location kind has its own directory with a fixed set of file names, so rewriting
 /// the files of a case never leaves a stale file of another case behind) and runs the CLI in-process.
-fn observe_cli(lay: &Layout, made: &mut std::collections::BTreeSet<PathBuf>, cmd: &[&str]) -> Observed {
+/// The real `okane` binary (built without the verification hooks from the same tree): the only observation point
+/// that executes `main` of cli/src/bin/okane.rs, i.e. the code that decides which parts of the error chain reach
+/// the user's terminal. `<out>/target/off/release/okane` = /verif/target/off/release/okane for registered runs.
+fn okane_binary() -> PathBuf {
+    let p = crate::fw::out_dir().join("target").join("off").join("release").join("okane");
+    if !p.exists() {
+        panic!("harness bug: okane binary {} is missing (./okv build creates it)", p.display());
+    }
+    p
+}
+
+fn write_layout(lay: &Layout, made: &mut std::collections::BTreeSet<PathBuf>) {
     for (p, t) in &lay.files {
         let pb = PathBuf::from(p);
         let parent = pb.parent().expect("parent").to_path_buf();
@@ -844,6 +890,34 @@ fn observe_cli(lay: &Layout, made: &mut std::collections::BTreeSet<PathBuf>, cmd
         }
         std::fs::write(&pb, t.as_bytes()).expect("harness bug: write scratch file");
     }
+}
+
+/// Runs the binary on the layout; the diagnostic is its stderr, byte for byte what the user sees.
+fn observe_bin(bin: &std::path::Path, lay: &Layout, made: &mut std::collections::BTreeSet<PathBuf>, args: &[String]) -> Observed {
+    write_layout(lay, made);
+    let out = std::process::Command::new(bin).args(args).env_remove("RUST_LOG").env_remove("RUST_BACKTRACE").stdin(std::process::Stdio::null()).output().expect("harness bug: spawn okane");
+    let stderr = String::from_utf8_lossy(&out.stderr).to_string();
+    match out.status.code() {
+        Some(0) => Observed { accepted: true, kind: String::new(), variant: String::new(), text: String::new() },
+        Some(1) => Observed { accepted: false, kind: "unknown".into(), variant: "as printed by the binary".into(), text: stderr },
+        // a panic (101) or a signal is a crash of okane on this input
+        other => panic!("okane binary ended with status {:?}: {}", other, stderr.lines().take(6).collect::<Vec<_>>().join(" | ")),
+    }
+}
+
+fn bin_commands(f: &Fault, root: &str) -> Vec<(String, Vec<String>)> {
+    let s = |v: &[&str]| -> Vec<String> { v.iter().map(|x| x.to_string()).collect() };
+    let mut out = vec![("balance".to_string(), s(&["balance", root])), ("register".to_string(), s(&["register", root])), ("primitive-eval".to_string(), s(&["primitive", "eval", "--date", "2024-06-01", "-f", root, "1 X"]))];
+    if f.kind == Kind::Syntax {
+        // these two load without book-keeping: only syntax faults are rejected by them
+        out.push(("accounts".to_string(), s(&["accounts", root])));
+        out.push(("primitive-flatten".to_string(), s(&["primitive", "flatten", root])));
+    }
+    out
+}
+
+fn observe_cli(lay: &Layout, made: &mut std::collections::BTreeSet<PathBuf>, cmd: &[&str]) -> Observed {
+    write_layout(lay, made);
     let mut args: Vec<String> = vec!["okane".into()];
     args.extend(cmd.iter().map(|x| x.to_string()));
     args.push(lay.root.clone());
@@ -1078,6 +1152,57 @@ fn run(ctx: &mut Ctx) {
                 );
                 ctx.count("transitions", compared);
                 ctx.count("cases/real-file-system", 1);
+            }
+        }
+    }
+
+    // ---- family 4: the real binary, every sub-command that loads a ledger; the diagnostic is its stderr ----
+    let bin = okane_binary();
+    let f4_ctxs = contexts(ctx.tier.pick(0usize, 1usize));
+    ctx.fact("binary_contexts", f4_ctxs.len() as u64);
+    let f4_locs = |f: &Fault| -> Vec<Loc> {
+        let mut out = vec![];
+        for l in locations(f, true) {
+            if !thorough && (l.pre != 0 || l.setup_in_root || l.kind == LocKind::Lit2DotDot) {
+                continue;
+            }
+            out.push(l);
+            // and once after an include of an empty file in the same file
+            if l.kind == LocKind::Root || l.kind == LocKind::Glob1 || thorough {
+                out.push(Loc { incb: 1, ..l });
+            }
+        }
+        out
+    };
+    for s in &f4_ctxs {
+        let fs = &by_mb[&s[S_MB]];
+        for f in fs {
+            for loc in f4_locs(f) {
+                let ncmd = bin_commands(f, "x").len();
+                for ci in 0..ncmd {
+                    if !ctx.next_is_mine() {
+                        ctx.skip_cases(1);
+                        continue;
+                    }
+                    let bf = build_bad_file(s, f, !loc.setup_in_root, loc.incb);
+                    let lay = build_layout(&format!("{}/bin-{:?}", base, loc.kind), &loc, f, &bf);
+                    let (cname, args) = bin_commands(f, &lay.root)[ci].clone();
+                    let via = format!("bin-{}", cname);
+                    let mut compared = 0u64;
+                    ctx.case(
+                        || describe(s, f, &loc, &lay, &bf, &format!("real files, real binary (stderr), $ okane {}", args.join(" "))).replace(&base, "<scratch>"),
+                        || {
+                            let obs = observe_bin(&bin, &lay, &mut made, &args);
+                            let mut o = judge(&obs, &lay, &bf, f, &loc, &via, &mut compared);
+                            if let crate::fw::Verdict::Violation { sig, detail } = &o.verdict {
+                                o = Outcome::violation(sig.clone(), detail.replace(&base, "<scratch>"));
+                            }
+                            o
+                        },
+                    );
+                    ctx.count("transitions", compared);
+                    ctx.count("cases/okane-binary", 1);
+                }
             }
         }
     }
